@@ -82,6 +82,8 @@ def object_events(entry, enc, tid0, rng, quick, run):
         budget = (400 if dname in slow else 3000) if quick else (400 if dname in slow else 3000)
         if dname == "BerlekampMasseyDecoder" and n > 15 and not quick:
             budget = 80                         # pure-Python field arithmetic: ~50 ms per word at n = 31
+        if entry.family == "rm" and k >= 14:
+            budget = min(budget, 96)            # a 2^16-word codebook is compared with every received word
         if entry.component in ("ReedSolomonCodeEncoder",) or dname == "ReedMullerDecoder":
             budget = min(budget, 200)           # components with a listed finding: enough cases to re-confirm it
         pats = patterns(n, t, 200 if not quick else 60, rng)
@@ -197,7 +199,7 @@ def run(run):
     if not r.ok:
         raise tlc.TLCFailure("MC_Decoding: %s %s\n%s" % (r.errors, r.violated, r.stdout[-2000:]))
     run.add_tlc("MC_Decoding (nearest-codeword rule corrects <= t on the spec's constructions; distance layers = brute force)", r)
-    cat = fec.catalogue(run.tier, rng, max_n=31)
+    cat = fec.catalogue(run.tier, rng, max_n=31, rm5=True)
     cat = [e for e in cat if e.family != "ldpc" or True]
     if run.only:
         cat = [e for e in cat if {k: v for k, v in run.only.get("config", {}).items() if k != "decoder"} == e.config()]
